@@ -34,7 +34,7 @@ RULE = (
     "siblings/cousins), polymorphic_load None/inline/selectin, optional Mapper.with_polymorphic='*' on the base, discriminator str/int via column / attribute name / CASE expression, "
     "concrete root table/abstract/plain and per-intermediate own polymorphic_union, optional referencing entity; 0-12 rows (drawn "
     "distinct PKs, class index modulo the instantiable classes, values incl. NULL) inserted by raw Core INSERT; every class is queried "
-    "with select(Q) plus 0-10 drawn variants, each top-level variant in one of three execution modes: normal (fresh Session), populate_existing in a fresh Session, "
+    "with select(Q) plus 0-10 drawn variants (with_polymorphic optionally with an explicit polymorphic_on= column / label / CASE over a second identity-carrying base-table column, combined with aliased / flat), each top-level variant in one of three execution modes: normal (fresh Session), populate_existing in a fresh Session, "
     "populate_existing in a Session that already holds every row of the subtree fully loaded (execution option / Query.populate_existing() / Session.get(populate_existing=True)). Non-trivial: hierarchy depth>=2, rows in >=3 distinct classes, and a query at a "
     "non-root non-leaf class whose expected result is non-empty; distinct = canonical JSON of the case"
 )
@@ -170,6 +170,8 @@ def _check_obj(o, row, b, q, eager, where, exprx):
             exp = P.ident(cfg, c)
         elif n == "code":
             exp = P.rawcode(cfg, c)
+        elif n == "dtwin":
+            exp = P.ident(cfg, c)
         elif n == "ref_id":
             exp = row["ref"]
         else:
@@ -296,7 +298,23 @@ def _run_variant(b, eng, rows, nrefs, q, v):
                     star = v.get("star")
                     sub = _subset(sh, q, v.get("mask", 0), proper=False)
                     spec = "*" if star else [b.classes[d] for d in sub]
-                    ent = with_polymorphic(Q, spec, flat=bool(v.get("flat")), aliased=bool(v.get("aliased")))
+                    pkw = {}
+                    pon = v.get("pon") or 0
+                    if pon:
+                        # explicit discriminator: a base-table column (or an expression over it) that is not the mapper's own
+                        # polymorphic_on but carries the same identities
+                        from sqlalchemy import case
+
+                        col = b.tables[0].c.dtwin
+                        if pon == 1:
+                            pkw["polymorphic_on"] = col
+                        elif pon == 2:
+                            pkw["polymorphic_on"] = col.label("disc_twin")
+                        else:
+                            ids = [P.ident(cfg, k) for k in range(sh["n"])]
+                            pkw["polymorphic_on"] = case(*[(col == i_, i_) for i_ in ids], else_=col)
+                        where += f" polymorphic_on=<explicit {['', 'column', 'label', 'CASE'][pon]} over t0.dtwin>"
+                    ent = with_polymorphic(Q, spec, flat=bool(v.get("flat")), aliased=bool(v.get("aliased")), **pkw)
                     eager["incl"] = set(sh["desc"][q]) if star else _upclosure(sh, q, sub)
                     eager["explicit_wp"] = True
                     eager["tag"] = ("wp-star" if star else "wp-subset") if name == "wp" else "join_of_type-wp"
@@ -485,6 +503,11 @@ def check_hier(case, ctx):
                 classes.add("v:wp-flat")
             if v.get("aliased"):
                 classes.add("v:wp-aliased")
+            if v.get("pon") and cfg["kind"] != "concrete":
+                classes.add("v:wp-explicit-polymorphic_on")
+                if v.get("aliased") or v.get("flat"):
+                    classes.add("v:wp-explicit-polymorphic_on:aliased-or-flat")
+                    classes.add(f"v:wp-explicit-polymorphic_on:aliased-or-flat:at-{pos}")
         mode = v.get("mode") or "normal"
         if rn in REF_VARIANTS[2:]:
             mode = "normal"
@@ -592,6 +615,8 @@ def _cases(draw):
             v["star"] = draw(st.booleans())
             v["flat"] = draw(st.booleans())
             v["aliased"] = draw(st.booleans())
+        if name in ("wp", "join_of_type"):
+            v["pon"] = draw(st.sampled_from([0, 1, 0, 2, 3, 1]))
         if name in REF_VARIANTS:
             v["ref"] = draw(st.integers(0, 1))
         if name not in ("get",) and name not in REF_VARIANTS[2:]:
